@@ -873,11 +873,7 @@ Proof.
   - destruct e; reflexivity.
 Qed.
 Lemma res_ok_refl o r : res_ok o r r = true.
-Proof.
-  destruct o; try apply res_eqb_refl.
-  destruct r; try reflexivity; try apply (res_eqb_refl (RTerm t)); try apply (res_eqb_refl (RNat n));
-    try apply (res_eqb_refl (RBool b)); try apply (res_eqb_refl (RList l)).
-Qed.
+Proof. apply res_eqb_refl. Qed.
 
 Lemma split_at (l : list (term * term)) k : (k < length l)%nat ->
   exists l1 c x l2, l = l1 ++ (c, x) :: l2 /\ length l1 = k.
@@ -1417,17 +1413,12 @@ Qed.
 Lemma refines_step s xs o : Inv s xs -> kf_op xs o = 0 ->
   let '(s', r) := c_step HEAD s o in
   let '(xs', e) := lstep xs o in
-  Inv s' xs' /\ Frame (gr s) (gr s') /\ c_iter (gr s') HEAD = RList xs' /\
-  (match o, e with OIndex _, RExc _ => is_exc r = true | _, _ => r = e end).
+  Inv s' xs' /\ Frame (gr s) (gr s') /\ c_iter (gr s') HEAD = RList xs' /\ r = e.
 Proof.
   intros HI Hk. destruct (step_ok s xs o HI Hk) as [A [C B]].
   destruct (c_step HEAD s o) as [s' r]. destruct (lstep xs o) as [xs' e]. cbn [fst snd] in *.
   split; auto. split; auto. split; [now apply c_iter_Inv|].
-  destruct o; try (now apply res_eqb_true in B).
-  destruct e, r; simpl in B; try discriminate; try reflexivity;
-    try (apply (res_eqb_true (RTerm _) (RTerm _)) in B); try (apply (res_eqb_true (RNat _) (RNat _)) in B);
-    try (apply (res_eqb_true (RBool _) (RBool _)) in B); try (apply (res_eqb_true (RList _) (RList _)) in B);
-    congruence.
+  unfold res_ok in B. apply res_eqb_true in B. congruence.
 Qed.
 
 End Frame.
@@ -1484,8 +1475,7 @@ Qed.
 
 Lemma res_ok_not_hang o e x : res_ok o e x = true -> e <> RHang -> is_hang x = false.
 Proof.
-  intros H He. destruct x; try reflexivity. exfalso.
-  destruct o, e; simpl in H; try discriminate; congruence.
+  intros H He. unfold res_ok in H. apply res_eqb_true in H. subst x. destruct e; auto. congruence.
 Qed.
 
 Lemma run_ok noise : forall ops s xs, Inv frozen s xs -> FrameInv noise (gr s) -> kf_run xs ops = 0 ->
